@@ -2,7 +2,10 @@ package main
 
 import (
 	"bytes"
+	"fmt"
 	"io"
+	"os"
+	"syscall"
 	"unsafe"
 
 	"github.com/islishude/bip39"
@@ -135,6 +138,41 @@ type customErr struct{}
 
 func (customErr) Error() string { return "verif: injected source failure" }
 
+// tempErr: a failure that calls itself temporary (what EINTR, EAGAIN and network timeouts look like)
+type tempErr struct{}
+
+func (tempErr) Error() string   { return "verif: injected temporary failure" }
+func (tempErr) Temporary() bool { return true }
+func (tempErr) Timeout() bool   { return true }
+
+func errOfKind(kind string) error {
+	switch kind {
+	case "":
+		return nil
+	case "EOF":
+		return io.EOF
+	case "UEOF":
+		return io.ErrUnexpectedEOF
+	case "EINTR":
+		return syscall.EINTR
+	case "EAGAIN":
+		return syscall.EAGAIN
+	case "temporary":
+		return tempErr{}
+	case "wrappedEOF":
+		return fmt.Errorf("verif: wrapped: %w", io.EOF)
+	case "noprogress":
+		return io.ErrNoProgress
+	case "shortbuffer":
+		return io.ErrShortBuffer
+	case "closedpipe":
+		return io.ErrClosedPipe
+	case "deadline":
+		return os.ErrDeadlineExceeded
+	}
+	return customErr{}
+}
+
 // scriptReader follows a script; every Read is recorded as a Read event.
 type scriptReader struct {
 	script []rstep
@@ -150,8 +188,8 @@ func (s *scriptReader) Read(p []byte) (int, error) {
 	if s.pos < len(s.script) {
 		st = s.script[s.pos]
 		s.pos++
-	} else if s.after == "EOF" {
-		st = rstep{0, "EOF"}
+	} else if s.after != "" && s.after != "data" {
+		st = rstep{0, s.after} // the source keeps failing with this kind of error
 	}
 	k := st.K
 	if k > len(p) {
@@ -160,15 +198,7 @@ func (s *scriptReader) Read(p []byte) (int, error) {
 	b := s.fill.bytes(k)
 	copy(p, b)
 	s.total += k
-	var err error
-	switch st.Err {
-	case "EOF":
-		err = io.EOF
-	case "UEOF":
-		err = io.ErrUnexpectedEOF
-	case "custom":
-		err = customErr{}
-	}
+	err := errOfKind(st.Err)
 	if !s.quiet {
 		emit(Event{"op": "Read", "asked": len(p), "gave": k, "bytes": ints(b), "errkind": st.Err})
 	}
